@@ -182,8 +182,10 @@ class Project:
     def write_config(self, cfg):
         return self.write(".gwfconf.json", json.dumps(cfg))
 
-    def set_file(self, rel, tick, content=None):
-        """tick None -> ensure missing; else create with mtime BASE_T + tick*10 (whole ms)"""
+    def set_file(self, rel, tick, content=None, symlink=False, link_tick=None):
+        """tick None -> ensure missing; else create with mtime BASE_T + tick*10 (whole ms).
+        symlink=True: the data lives outside the project, `rel` is a symbolic link to it whose OWN
+        (lstat) mtime is BASE_T + link_tick*10 - what matters to make semantics is the data's mtime."""
         p = self.path(rel)
         if tick is None:
             try:
@@ -192,10 +194,22 @@ class Project:
                 pass
             return
         os.makedirs(os.path.dirname(p), exist_ok=True)
+        ns = (BASE_T + tick * 10) * 1_000_000_000
+        if symlink:
+            real = os.path.join(self.base, "outside", rel.replace("/", "__"))
+            os.makedirs(os.path.dirname(real), exist_ok=True)
+            with open(real, "w") as f:
+                f.write(content if content is not None else "content of %s\n" % rel)
+            if os.path.lexists(p):
+                os.remove(p)
+            os.symlink(real, p)
+            os.utime(real, ns=(ns, ns))
+            lns = (BASE_T + (link_tick if link_tick is not None else 0) * 10) * 1_000_000_000
+            os.utime(p, ns=(lns, lns), follow_symlinks=False)
+            return
         if content is not None or not os.path.exists(p):
             with open(p, "w") as f:
                 f.write(content if content is not None else "content of %s\n" % rel)
-        ns = (BASE_T + tick * 10) * 1_000_000_000
         os.utime(p, ns=(ns, ns))
 
     def state_files(self):
